@@ -175,7 +175,15 @@ fn inner(c: &TryCase) -> Result<CaseReport, Stop> {
                         let r = no_panic("TcpStreamInProgress::try_connect", || p.try_connect());
                         let log = sc::verif::log_end();
                         never_blocks("TcpStreamInProgress::try_connect", &log, &nb)?;
-                        state = r?.map_err(|e| unexpected("TcpStreamInProgress::try_connect", &e, "listening libc socket"))?;
+                        // what the continuation answers is judged by the "inprogress"
+                        // sub-check; here only its trace counts
+                        state = match r? {
+                            Ok(st) => st,
+                            Err(_) => {
+                                rep.class("tcp-try-connect-continuation-error");
+                                break;
+                            }
+                        };
                     }
                 }
             }
@@ -185,6 +193,143 @@ fn inner(c: &TryCase) -> Result<CaseReport, Stop> {
         }
     }
     Ok(rep)
+}
+
+// ------------------------------------------------------------------------------------------
+// "inprogress": continuing a TCP connection that `try_connect` left in progress
+// ------------------------------------------------------------------------------------------
+
+#[derive(Debug, Clone, Serialize, Deserialize)]
+pub struct InProgressCase {
+    /// the libc listener (backlog 0) already has its queue full, so the SYN is dropped and the
+    /// connection really stays in progress (otherwise loopback completes it at once)
+    pub full: bool,
+    /// 0: `TcpStreamInProgress::try_connect` x n; 1: `TcpStreamInProgress::connect_blocking`
+    /// while a helper makes room; 2: plain blocking `TcpStream::connect` while a helper makes room
+    pub cont: u8,
+    pub n: u8,
+    /// scheduling hint for the helper that accepts the queued connection
+    pub accept_delay_us: u16,
+}
+
+pub fn run_inprogress(c: &InProgressCase) -> CaseResult {
+    match inprogress_inner(c) {
+        Ok(r) => Ok(r),
+        Err(Stop::Fail(f)) => Err(f),
+        Err(Stop::Inconclusive(why)) => {
+            let mut r = CaseReport::new();
+            r.class("inconclusive-environment");
+            eprintln!("[C16 inprogress] inconclusive: {why}");
+            Ok(r)
+        }
+    }
+}
+
+fn inprogress_inner(c: &InProgressCase) -> Result<CaseReport, Stop> {
+    let mut rep = CaseReport::new();
+    let _guard = PlanGuard;
+    let (l, port) = libc_tcp_listener(0)?;
+    let mut fillers = Vec::new();
+    if c.full {
+        fillers.push(libc_tcp_connect(port, false).map_err(|e| Stop::Inconclusive(format!("filler connect: errno {e}")))?);
+    }
+    let addr = loopback(port);
+    // the helper accepts the filler after the hint delay: from then on the queue has room and
+    // the retransmitted SYN (about 1 s later) completes the connection
+    let spawn_helper = |lfd: i32, delay: u16| {
+        std::thread::spawn(move || {
+            std::thread::sleep(std::time::Duration::from_micros(delay as u64));
+            libc_accept(lfd)
+        })
+    };
+    let blocking_shape = if c.full { "queue full, peer accepts later" } else { "listener has room" };
+    if c.cont == 2 {
+        let helper = if c.full { Some(spawn_helper(l.fd(), c.accept_delay_us)) } else { None };
+        sc::verif::log_begin();
+        let r = no_panic("TcpStream::connect", || TcpStream::connect(&addr));
+        let log = sc::verif::log_end();
+        let acc = helper.map(|h| h.join().expect("helper"));
+        let s = r?.map_err(|e| unexpected("TcpStream::connect", &e, blocking_shape))?;
+        rep.class_if(blocked_cycles(&log, sc::nr::CONNECT, libc::EINPROGRESS) > 0, "connect-waited-in-ppoll");
+        rep.class_if(c.full, "blocking-connect-while-queue-full");
+        drop(s);
+        drop(acc);
+    } else {
+        let st = no_panic("TcpStream::try_connect", || TcpStream::try_connect(&addr))?.map_err(|e| unexpected("TcpStream::try_connect", &e, "listening libc socket"))?;
+        match st {
+            TcpTryConnect::Connected(s) => {
+                rep.class("connected-at-once");
+                drop(s);
+            }
+            TcpTryConnect::InProgress(p) => {
+                rep.class("in-progress");
+                if c.cont == 0 {
+                    let mut p = Some(p);
+                    for i in 0..c.n.max(1) {
+                        let cur = p.take().unwrap();
+                        match no_panic("TcpStreamInProgress::try_connect", || cur.try_connect())? {
+                            Ok(TcpTryConnect::Connected(s)) => {
+                                rep.class("continued-to-connected");
+                                drop(s);
+                                break;
+                            }
+                            Ok(TcpTryConnect::InProgress(np)) => {
+                                rep.class("continued-still-in-progress");
+                                p = Some(np);
+                            }
+                            Err(e) => {
+                                // nothing has failed: the peer simply has not answered yet
+                                if ek(&e) == EK::Os(libc::EALREADY) {
+                                    return Err(stop_fail(
+                                        "TcpStreamInProgress::try_connect|EALREADY|connection still in progress",
+                                        format!("continuation {i} of a connection that is still in progress (listener queue full: {}) returned {e} and dropped the socket; documented: InProgress again, errors only for connection failures", c.full),
+                                    ));
+                                }
+                                return Err(unexpected("TcpStreamInProgress::try_connect", &e, "connection in progress"));
+                            }
+                        }
+                    }
+                } else {
+                    let helper = if c.full { Some(spawn_helper(l.fd(), c.accept_delay_us)) } else { None };
+                    sc::verif::log_begin();
+                    let r = no_panic("TcpStreamInProgress::connect_blocking", || p.connect_blocking());
+                    let log = sc::verif::log_end();
+                    let acc = helper.map(|h| h.join().expect("helper"));
+                    match r? {
+                        Ok(s) => {
+                            rep.class_if(blocked_cycles(&log, sc::nr::CONNECT, libc::EINPROGRESS) > 0 || blocked_cycles(&log, sc::nr::CONNECT, libc::EALREADY) > 0, "connect-blocking-waited-in-ppoll");
+                            rep.class("connect-blocking-completed");
+                            drop(s);
+                        }
+                        Err(e) => {
+                            if ek(&e) == EK::Os(libc::EALREADY) {
+                                return Err(stop_fail(
+                                    "TcpStreamInProgress::connect_blocking|EALREADY|connection still in progress",
+                                    format!("connect_blocking on a connection that is still in progress ({blocking_shape}) returned {e} at once instead of blocking until the connection is established"),
+                                ));
+                            }
+                            return Err(unexpected("TcpStreamInProgress::connect_blocking", &e, blocking_shape));
+                        }
+                    }
+                    drop(acc);
+                }
+            }
+        }
+    }
+    rep.class(match c.cont {
+        0 => "continue-with-try_connect",
+        1 => "continue-with-connect_blocking",
+        _ => "plain-blocking-connect",
+    });
+    rep.class_if(c.full, "listener-queue-full");
+    rep.nontrivial = true;
+    drop(fillers);
+    drop(l);
+    Ok(rep)
+}
+
+pub fn inprogress_strategy() -> impl Strategy<Value = InProgressCase> {
+    (any::<bool>(), 0u8..3, 1u8..4, prop_oneof![Just(0u16), 100u16..5000]).prop_map(|(full, cont, n, accept_delay_us)| InProgressCase { full, cont, n, accept_delay_us })
 }
 
 pub fn try_strategy() -> impl Strategy<Value = TryCase> {
